@@ -152,7 +152,7 @@ where
         let one = F::one();
         loop {
             let inv_b = self.inv_cdf(rng.sample(StandardUniform));
-            let x = (inv_b + one).floor();
+            let x = inv_b.floor() + one;
             let mut ratio = x.powf(-self.s);
             if x > one {
                 ratio = ratio * inv_b.powf(self.s)
